@@ -117,16 +117,23 @@ WRAP:
 			added = true
 			// Otherwise, set the date at the beginning (since the current time is irrelevant).
 			t = time.Date(t.Year(), t.Month(), 1, 0, 0, 0, 0, loc)
+			// When midnight of the 1st does not exist this can be 23:00 of
+			// the day before: stay inside the current month.
+			if t.Hour() > 12 {
+				t = t.Add(time.Duration(24-t.Hour()) * time.Hour)
+			}
 		}
 		t = t.AddDate(0, 1, 0)
 		// Notice if the hour is no longer midnight due to DST: when midnight
-		// of the 1st does not exist, AddDate lands on 23:00 of the last day of
-		// the previous month. Add an hour if it's 23, subtract an hour if it's 1.
+		// of the 1st does not exist, AddDate lands either on 23:00 of the last
+		// day of the previous month or on 01:00 of the 1st. Add an hour if
+		// it's 23; subtract an hour if it's 1, unless that leaves the month
+		// again (01:00 then is the first instant of the 1st).
 		if t.Hour() != 0 {
 			if t.Hour() > 12 {
 				t = t.Add(time.Duration(24-t.Hour()) * time.Hour)
-			} else {
-				t = t.Add(time.Duration(-t.Hour()) * time.Hour)
+			} else if m := t.Add(time.Duration(-t.Hour()) * time.Hour); m.Month() == t.Month() {
+				t = m
 			}
 		}
 
